@@ -19,6 +19,13 @@ CLAIMED["C14"] = ("Bounded symbolic model checking of IRI.Equals / irisEqual / I
          "Hosts are one letter + .ex, segments one letter; longer components, more than two segments/pairs, and arbitrary strings beyond the stated lengths are outside the claim. Map iteration order of url.Values is insertion order.",
          "7 C14")
 
+CLAIMED["C13"] = ("Bounded symbolic model checking of Append/Contains/Count/Collection/Remove of all six collection kinds through the real ItemsEqual / IRI.Equals code: histories of 2-3 (quick) / 4-5 (thorough) operations chosen among Append, Contains, Remove over a pool of 2-3 items with symbolic pairwise-distinct ids in IRI/object/actor/activity shapes, compared after every step with an insertion-ordered reference set; plus the inductive step (arbitrary duplicate-free pre-state of up to 2 (quick) / 3 (thorough) members installed directly, one arbitrary operation), which extends the claim to histories of any length as far as the pre-state bound reaches.",
+         "Ids are https://h.ex/<one symbolic letter>; an item of a given id has one shape. Remove is exercised through ToItemCollection (not for IRI lists, which have no in-place view). Longer ids and pre-states beyond the bound are outside the claim.",
+         "7 C13")
+CLAIMED["C15"] = ("Bounded symbolic model checking of IRIf / Split / CollectionPath.IRI / OfActor / Of / ValidCollectionIRI through the real net/url and path/filepath code: owners https://<symbolic alnum>.ex[:8<digit>] with 0-2 (quick) / 3 (thorough) path segments of two symbolic alnum characters, optionally a segment that is itself a collection name or a percent-escape %41..%49, with and without trailing slash, for all eight collection names; objects and actors with and without an explicit collection property (symbolic IRI).",
+         "Owner equivalence is decided by string equality modulo a trailing slash or by IRI.Equals with scheme comparison (itself the subject of C14). Longer hosts/segments are outside the claim.",
+         "7 C15")
+
 NOT_YET = {}
 
 def main():
